@@ -123,6 +123,8 @@ class Engine:
         self.prescribe = set()    # names of modelled hashes whose model values are replayed natively
         import os as _os
         self.fork_sites = {} if _os.environ.get('VERIF_FORK_SITES') else None
+        self.split_depth = None   # frontier mode: stop every path at this many decisions
+        self.frontier = []        # decision prefixes recorded in frontier mode
 
     # -- solver plumbing -------------------------------------------------------------
     def _check(self, *extra):
@@ -195,6 +197,8 @@ class Engine:
             self._push(cond if d[0] else z3.Not(cond))
             self.model = None
             return d[0]
+        if self.split_depth is not None and i >= self.split_depth:
+            self._split()
         self.stats.decisions += 1
         m = self._holds_in_model(cond)
         ncond = z3.Not(cond)
@@ -235,6 +239,10 @@ class Engine:
         if r == z3.unsat:
             return False
         raise Abort('unknown', 'decide')
+
+    def _split(self):
+        self.frontier.append([[d[0], False] + list(d[2:]) for d in self.trace])
+        raise Abort('split')
 
     def _note_site(self):
         import sys
@@ -407,11 +415,12 @@ class Engine:
         self.path_local = {}
         self.hash_outputs = []
 
-    def explore(self, scenario, on_path=None):
-        '''Run scenario() along every feasible path.  Returns Stats.'''
+    def explore(self, scenario, on_path=None, forced=None):
+        '''Run scenario() along every feasible path (below the forced decision prefix, if
+        given: those decisions are replayed and never flipped).  Returns Stats.'''
         st = self.stats
         t0 = time.time()
-        self.prefix = []
+        self.prefix = [list(d) for d in forced] if forced else []
         set_engine(self)
         while True:
             self._reset_path()
@@ -627,6 +636,8 @@ def _enumerate_int2(eng, term, what):
     else:
         if i >= eng.max_decisions:
             raise Abort('budget', 'max_decisions')
+        if eng.split_depth is not None and i >= eng.split_depth:
+            eng._split()
     eng.stats.decisions += 1
     excl = [term != _num(term, t) for t in tried]
     if len(tried) > 4096:
